@@ -9,7 +9,7 @@ use serde_json::{json, Value};
 use std::collections::BTreeMap;
 
 fn pre_alphabet(kind: &Kind) -> Vec<Op> {
-    let mut v = vec![Op::Item(1), Op::Item(2), Op::Item(3), Op::Burst(100, 12), Op::Slice(vec![2, 4]), Op::Slice(vec![])];
+    let mut v = vec![Op::Item(1), Op::Item(2), Op::Item(0), Op::Burst(100, 12), Op::Slice(vec![0, 4]), Op::Slice(vec![])];
     if kind.has_end {
         v.push(Op::End);
     }
@@ -27,7 +27,7 @@ fn pre_alphabet(kind: &Kind) -> Vec<Op> {
 }
 
 fn post_alphabet(kind: &Kind) -> Vec<Op> {
-    let mut v = vec![Op::Item(1), Op::Item(2), Op::Item(5), Op::Burst(104, 12), Op::Slice(vec![2, 5, 9])];
+    let mut v = vec![Op::Item(1), Op::Item(0), Op::Item(5), Op::Burst(104, 12), Op::Slice(vec![0, 5, 9])];
     if kind.has_end {
         v.push(Op::End);
     }
